@@ -278,6 +278,34 @@ def s2b(ctx, rep):
                   "levels outside the requested fidelity range are replayed (or those inside are dropped)")
 
 
+def s5b(ctx, rep):
+    """the monotonicity repair compares each level with its predecessor IN THE LIST THAT IS RETURNED (after a resume that
+    list is the rebased tail, not the full table row list)"""
+    P = ctx.P
+    g = P.method("_BlackboxSimulatorBackend", "_run_job_and_collect_results")
+    rets = [r.value.elts[1].id for r in returns_of(g) if isinstance(r.value, ast.Tuple) and len(r.value.elts) == 2 and isinstance(r.value.elts[1], ast.Name)]
+    if not rets:
+        raise AnchorError("_run_job_and_collect_results: returned result list not identified")
+    rv = rets[0]
+    n = 0
+    for x in walk_shallow(g.node):
+        if isinstance(x, ast.Assign) and isinstance(x.targets[0], ast.Subscript):
+            root = x.targets[0]
+            while isinstance(root, ast.Subscript):
+                root = root.value
+            if not (isinstance(root, ast.Name) and root.id == rv):
+                continue
+            for y in ast.walk(x.value):
+                if isinstance(y, ast.Subscript) and isinstance(y.slice, ast.BinOp) and isinstance(y.slice.op, ast.Sub) and U(y.slice.right) == "1":
+                    n += 1
+                    ok = isinstance(y.value, ast.Name) and y.value.id == rv
+                    rep.put(ok, "S5", "agreement", "_BlackboxSimulatorBackend: the repair of elapsed times reads the predecessor from the returned list", g, y,
+                            U(x)[:80], f"`{U(y)}` is the predecessor in another list than `{rv}`: after a resume the time stamps are repaired "
+                            "against the skipped levels' raw times - resumed results are stamped too late and arrive out of order")
+    if n < 1:
+        raise AnchorError("_run_job_and_collect_results: monotonicity repair `results[i] = max(results[i], results[i - 1] + eps)` not found")
+
+
 def _ancestors(x):
     p_ = getattr(x, "_parent", None)
     while p_ is not None:
@@ -328,4 +356,5 @@ def run(ctx, rep, tier="quick"):
         rep.items.append(i)
     s6(ctx, rep)
     s2b(ctx, rep)
+    s5b(ctx, rep)
     s7(ctx, rep)
